@@ -1,6 +1,7 @@
 package props
 
 import (
+	"strings"
 	"bytes"
 	"errors"
 	"fmt"
@@ -163,6 +164,16 @@ func c12Workloads(c *explore.Ctx) (out []c12Workload, cleanup func()) {
 			out = append(out, persistWorkload("persist-loaded-file-small", l))
 		}
 	}
+	// the fixed workloads (two-block merge, persist of built / loaded segments) first: in the thorough
+	// tier the enumerated merge workloads are many and the budget may end the run among them
+	fixed := len(out) - 0
+	for i, w := range out {
+		if !strings.HasPrefix(w.name, "merge#") {
+			fixed = i
+			break
+		}
+	}
+	out = append(append([]c12Workload{}, out[fixed:]...), out[:fixed]...)
 	return out, cleanup
 }
 
